@@ -1,6 +1,1325 @@
-(** placeholder: replaced below in this session *)
-From Coq Require Import List Bool Arith ZArith Lia.
+(** Specification and proofs for Model/Triples.v (property C20, triples and supertrees).
+
+    Specification: [leaf_path t a p] (the path [p] leads from the root of [t] to a
+    leaf named [a]); the lowest common ancestor of two leaves is the longest common
+    prefix [lcp] of their paths; [displays t (a, b, c)]: lca(a,b) is a strict
+    descendant of lca(a,c); [proper leaves tr]: a triple over the leaf set;
+    [bin]: binary trees; [same_clades]: equal sets of clades; [NoDupBy E l]: no two
+    elements of [l] are related by [E].
+
+    Main theorems: [build_sound] (tree_from_triples never raises on proper input and
+    a returned tree has exactly the given leaves and displays every triple),
+    [build_complete] (if any tree displays every triple, tree_from_triples returns a
+    tree: the Aho-Sagiv-Szymanski-Ullman argument), [all_trees_sound_nodup] /
+    [all_trees_once] (every tree returned by all_trees_from_triples is binary, on the
+    leaf set, displays every triple, and no clade set is returned twice),
+    [all_trees_complete] (every binary tree on the leaf set that displays every triple
+    is returned, up to the order of children).
+    Open: [breakup_roundtrip_statement], [supertree_displays_statement]. *)
+From Coq Require Import List Bool Arith ZArith Lia Permutation.
 From SR Require Import Model.DisjointSet Model.Triples Proofs.DisjointSetProofs.
 Import ListNotations.
-Lemma build_one a ts : tree_from_triples [a] ts = Ok (Some (Leaf a)).
-Proof. reflexivity. Qed.
+
+(* ============================================================ specification *)
+
+(* [leaf_path t a p]: the path [p] (child indices from the root) leads to a leaf named [a] *)
+Inductive leaf_path : tree -> nat -> list nat -> Prop :=
+| lp_leaf a : leaf_path (Leaf a) a []
+| lp_node cs i c a p : nth_error cs i = Some c -> leaf_path c a p -> leaf_path (Node cs) a (i :: p).
+
+(* longest common prefix = path of the lowest common ancestor *)
+Fixpoint lcp (p q : list nat) : list nat :=
+  match p, q with
+  | x :: p', y :: q' => if x =? y then x :: lcp p' q' else []
+  | _, _ => []
+  end.
+
+(* t displays ((a,b),c): lca(a,b) is a strict descendant of lca(a,c) *)
+Definition displays (t : tree) (tr : triple) : Prop :=
+  let '(a, b, c) := tr in
+  exists pa pb pc, leaf_path t a pa /\ leaf_path t b pb /\ leaf_path t c pc /\
+                   length (lcp pa pc) < length (lcp pa pb).
+
+(* a triple over the leaf set: three leaves, the third different from the other two *)
+Definition proper (leaves : list nat) (tr : triple) : Prop :=
+  let '(a, b, c) := tr in In a leaves /\ In b leaves /\ In c leaves /\ c <> a /\ c <> b.
+
+(* ------------------------------------------------------------------ trees *)
+Section TreeInd.
+Variable P : tree -> Prop.
+Hypothesis Hleaf : forall a, P (Leaf a).
+Hypothesis Hnode : forall cs, Forall P cs -> P (Node cs).
+Fixpoint tree_ind' (t : tree) : P t :=
+  match t with
+  | Leaf a => Hleaf a
+  | Node cs => Hnode cs ((fix go (l : list tree) : Forall P l :=
+                            match l with
+                            | [] => Forall_nil P
+                            | c :: r => Forall_cons c (tree_ind' c) (go r)
+                            end) cs)
+  end.
+End TreeInd.
+
+Lemma leaf_path_exists : forall t a, In a (leaves_of t) -> exists p, leaf_path t a p.
+Proof.
+  induction t as [b|cs IH] using tree_ind'; intros a I.
+  - simpl in I. destruct I as [<-|[]]. exists []. constructor.
+  - simpl in I. apply in_flat_map in I. destruct I as (c & Ic & Ia).
+    rewrite Forall_forall in IH. destruct (IH c Ic a Ia) as [p Hp].
+    apply In_nth_error in Ic. destruct Ic as [i Ei]. exists (i :: p). econstructor; eauto.
+Qed.
+
+Lemma leaf_path_in : forall t a p, leaf_path t a p -> In a (leaves_of t).
+Proof.
+  induction 1 as [a|cs i c a p E _ IH]; simpl; [left; reflexivity|].
+  apply in_flat_map. exists c. split; [eapply nth_error_In; eauto|assumption].
+Qed.
+
+(* ---------------------------------------------------------------- indices *)
+Lemma index_of_nth x : forall l i, index_of x l = Some i -> nth_error l i = Some x.
+Proof.
+  induction l as [|y l IH]; intros i H; simpl in H; [discriminate|].
+  destruct (index_of x l) as [j|] eqn:E.
+  - inversion H; subst. simpl. apply IH. reflexivity.
+  - destruct (Nat.eqb_spec x y); [|discriminate]. inversion H; subst. reflexivity.
+Qed.
+
+Lemma index_of_in x : forall l, In x l -> exists i, index_of x l = Some i.
+Proof.
+  induction l as [|y l IH]; intros I; [destruct I|]. simpl.
+  destruct (index_of x l) as [j|] eqn:E; [eauto|].
+  destruct I as [->|I]; [rewrite Nat.eqb_refl; eauto|]. destruct (IH I); discriminate.
+Qed.
+
+Definition pos (leaves : list nat) (a : nat) : nat :=
+  match index_of a leaves with Some i => i | None => 0 end.
+
+Lemma lookup_pos leaves a : In a leaves ->
+  lookup leaves a = Ok (pos leaves a) /\ nth_error leaves (pos leaves a) = Some a.
+Proof.
+  intros I. destruct (index_of_in a leaves I) as [i E]. unfold lookup, pos. rewrite E.
+  split; [reflexivity|]. apply index_of_nth. assumption.
+Qed.
+
+Lemma pos_lt leaves a : In a leaves -> pos leaves a < length leaves.
+Proof. intros I. apply nth_error_Some. destruct (lookup_pos leaves a I) as [_ E]. congruence. Qed.
+
+Lemma get_all_ok leaves : forall g, (forall i, In i g -> i < length leaves) ->
+  get_all leaves g = Ok (map (fun i => nth i leaves 0) g).
+Proof.
+  induction g as [|i g IH]; intros H; simpl; [reflexivity|].
+  rewrite (get_nth leaves i 0) by (apply H; left; reflexivity). simpl.
+  rewrite IH by (intros j Hj; apply H; right; assumption). reflexivity.
+Qed.
+
+Lemma mem_in x l : mem x l = true <-> In x l.
+Proof.
+  unfold mem. rewrite existsb_exists. split.
+  - intros (y & I & E). apply Nat.eqb_eq in E. subst. assumption.
+  - intros I. exists x. split; [assumption|apply Nat.eqb_refl].
+Qed.
+
+Lemma map_nth_seq (l : list nat) : map (fun i => nth i l 0) (seq 0 (length l)) = l.
+Proof.
+  apply (nth_ext _ _ 0 0); [rewrite map_length, seq_length; reflexivity|].
+  intros k Hk. rewrite map_length, seq_length in Hk.
+  rewrite (nth_indep _ 0 (nth 0 l 0)) by (rewrite map_length, seq_length; assumption).
+  rewrite (map_nth (fun i => nth i l 0)), seq_nth by assumption. reflexivity.
+Qed.
+
+(* ------------------------------------------------------ the partition step *)
+Definition idx (leaves : list nat) (tr : triple) : nat * nat :=
+  let '(a, b, _) := tr in (pos leaves a, pos leaves b).
+
+Lemma unite_triples_reach leaves : forall ts ps d,
+  reachable (length leaves) ps d -> (forall tr, In tr ts -> proper leaves tr) ->
+  exists d', unite_triples leaves ts d = Ok d' /\
+             reachable (length leaves) (ps ++ map (idx leaves) ts) d'.
+Proof.
+  induction ts as [|[[a b] c] ts IH]; intros ps d H Hp; simpl.
+  - exists d. rewrite app_nil_r. auto.
+  - destruct (Hp (a, b, c) (or_introl eq_refl)) as (Ia & Ib & _).
+    destruct (lookup_pos leaves a Ia) as [-> _]. destruct (lookup_pos leaves b Ib) as [-> _]. simpl.
+    destruct (dsu_unite _ _ _ _ _ H (pos_lt _ _ Ia) (pos_lt _ _ Ib)) as (d1 & bo & U & _).
+    rewrite U. simpl.
+    destruct (IH (ps ++ [(pos leaves a, pos leaves b)]) d1) as (d' & E & R).
+    + eapply R_unite; eauto using pos_lt.
+    + intros tr I. apply Hp. right; assumption.
+    + exists d'. split; [assumption|]. rewrite <- app_assoc in R. exact R.
+Qed.
+
+Lemma partition_perm n R l : is_partition n R l -> Permutation (concat l) (seq 0 n).
+Proof.
+  intros (_ & ND & C & _). apply NoDup_Permutation; [assumption|apply seq_NoDup|].
+  intros x. rewrite C, in_seq. lia.
+Qed.
+
+Lemma group_smaller {A} (gs : list (list A)) g :
+  (forall h, In h gs -> h <> []) -> 2 <= length gs -> In g gs -> length g < length (concat gs).
+Proof.
+  intros NE L I. apply in_split in I. destruct I as (l1 & l2 & ->).
+  rewrite concat_app, app_length. simpl. rewrite app_length.
+  destruct l1 as [|h l1].
+  - destruct l2 as [|h l2]; [simpl in L; lia|].
+    assert (h <> []) as Nh by (apply NE; right; left; reflexivity).
+    simpl. rewrite app_length. destruct h; [congruence|simpl; lia].
+  - assert (h <> []) as Nh by (apply NE; left; reflexivity).
+    simpl. rewrite app_length. destruct h; [congruence|simpl; lia].
+Qed.
+(* --------------------------------------------------- BUILD (tree_from_triples) *)
+Definition gl (leaves : list nat) (g : list nat) : list nat := map (fun i => nth i leaves 0) g.
+
+Definition sub_ok (leaves : list nat) (triples : list triple) (g : list nat) (s : tree) : Prop :=
+  Permutation (leaves_of s) (gl leaves g) /\
+  forall tr, In tr (filter (inside (gl leaves g)) triples) -> displays s tr.
+
+Lemma build_groups_spec rec leaves triples : forall gs acc,
+  (forall g, In g gs -> (forall i, In i g -> i < length leaves) /\
+     (rec (gl leaves g) (filter (inside (gl leaves g)) triples) = Ok None \/
+      exists s, rec (gl leaves g) (filter (inside (gl leaves g)) triples) = Ok (Some s) /\
+                sub_ok leaves triples g s)) ->
+  build_groups rec leaves triples gs acc = Ok None \/
+  exists ss, build_groups rec leaves triples gs acc = Ok (Some (Node (acc ++ ss))) /\
+             Forall2 (sub_ok leaves triples) gs ss.
+Proof.
+  induction gs as [|g gs IH]; intros acc H; simpl.
+  - right. exists []. rewrite app_nil_r. split; [reflexivity|constructor].
+  - destruct (H g (or_introl eq_refl)) as [Hr [E|(s & E & S)]];
+      rewrite (get_all_ok leaves g Hr); simpl; fold (gl leaves g); rewrite E; simpl.
+    + left. reflexivity.
+    + destruct (IH (acc ++ [s]) ltac:(intros h Ih; apply H; right; assumption)) as [E'|(ss & E' & F)].
+      * left. assumption.
+      * right. exists (s :: ss). rewrite <- app_assoc in E'. split; [assumption|constructor; assumption].
+Qed.
+
+Lemma NoDup_app_inv {A} (a b : list A) : NoDup (a ++ b) -> NoDup a /\ NoDup b.
+Proof.
+  induction a as [|x a IH]; simpl; intros H; [split; [constructor|assumption]|].
+  inversion H as [|? ? NI ND]; subst. destruct (IH ND) as [Na Nb]. split; [|assumption].
+  constructor; [|assumption]. intros I. apply NI. apply in_or_app. left; assumption.
+Qed.
+
+Lemma NoDup_concat_in {A} (l : list (list A)) g : NoDup (concat l) -> In g l -> NoDup g.
+Proof.
+  intros ND I. apply in_split in I. destruct I as (l1 & l2 & ->).
+  rewrite concat_app in ND. simpl in ND. apply NoDup_app_inv in ND. destruct ND as [_ ND].
+  apply NoDup_app_inv in ND. tauto.
+Qed.
+
+Lemma NoDup_gl leaves g : NoDup leaves -> NoDup g -> (forall i, In i g -> i < length leaves) ->
+  NoDup (gl leaves g).
+Proof.
+  intros NL. induction g as [|i g IH]; intros NG H; simpl; [constructor|].
+  inversion NG as [|? ? NI NG']; subst. constructor.
+  - intros I. apply in_map_iff in I. destruct I as (j & E & Ij).
+    assert (j = i) as ->; [|contradiction].
+    apply (proj1 (NoDup_nth leaves 0) NL); [apply H; right; assumption|apply H; left; reflexivity|assumption].
+  - apply IH; auto. intros j Hj. apply H. right; assumption.
+Qed.
+
+Lemma in_gl leaves g a : In (pos leaves a) g -> In a leaves -> In a (gl leaves g).
+Proof.
+  intros I Ia. apply in_map_iff. exists (pos leaves a). split; [|assumption].
+  destruct (lookup_pos leaves a Ia) as [_ E]. apply nth_error_nth. assumption.
+Qed.
+
+Lemma gl_in_pos leaves g a : NoDup leaves -> (forall i, In i g -> i < length leaves) ->
+  In a (gl leaves g) -> In (pos leaves a) g.
+Proof.
+  intros NL H I. apply in_map_iff in I. destruct I as (i & E & Ii).
+  assert (In a leaves) as Ia by (subst a; apply nth_In; auto).
+  destruct (lookup_pos leaves a Ia) as [_ E'].
+  assert (pos leaves a = i) as ->; [|assumption].
+  apply (proj1 (NoDup_nth leaves 0) NL); auto using pos_lt.
+  rewrite E. apply nth_error_nth. assumption.
+Qed.
+
+Lemma flat_map_perm leaves triples gs ss : Forall2 (sub_ok leaves triples) gs ss ->
+  Permutation (flat_map leaves_of ss) (gl leaves (concat gs)).
+Proof.
+  induction 1 as [|g s gs ss [P _] _ IH]; simpl; [constructor|].
+  unfold gl in *. rewrite map_app. apply Permutation_app; assumption.
+Qed.
+
+Lemma node_displays leaves triples (R : nat -> nat -> Prop) gs ss a b c :
+  NoDup leaves -> is_partition (length leaves) R gs ->
+  Forall2 (sub_ok leaves triples) gs ss ->
+  In (a, b, c) triples -> proper leaves (a, b, c) ->
+  R (pos leaves a) (pos leaves b) ->
+  displays (Node ss) (a, b, c).
+Proof.
+  intros NL P F It (Ia & Ib & Ic & Nca & Ncb) E.
+  pose proof P as (_ & ND & Cov & Q).
+  assert (forall g, In g gs -> forall i, In i g -> i < length leaves) as RANGE.
+  { intros g Ig i Ii. apply Cov. apply in_concat. eauto. }
+  apply (Q _ _ (pos_lt _ _ Ia) (pos_lt _ _ Ib)) in E. destruct E as (g & Ig & Iag & Ibg).
+  destruct (In_nth_error _ _ Ig) as [i Ei].
+  destruct (Forall2_nth_l _ _ _ _ _ F Ei) as (s & Es & [Ps Ds]).
+  assert (In a (leaves_of s)) as La by (eapply Permutation_in; [symmetry; exact Ps|apply in_gl; assumption]).
+  assert (In b (leaves_of s)) as Lb by (eapply Permutation_in; [symmetry; exact Ps|apply in_gl; assumption]).
+  destruct (mem c (gl leaves g)) eqn:M.
+  - assert (In (a, b, c) (filter (inside (gl leaves g)) triples)) as I.
+    { apply filter_In. split; [assumption|]. simpl. rewrite M.
+      rewrite (proj2 (mem_in a _) (in_gl _ _ _ Iag Ia)), (proj2 (mem_in b _) (in_gl _ _ _ Ibg Ib)). reflexivity. }
+    destruct (Ds _ I) as (pa & pb & pc & Ha & Hb & Hc & L).
+    exists (i :: pa), (i :: pb), (i :: pc). repeat split; try (econstructor; eassumption).
+    simpl. rewrite Nat.eqb_refl. simpl. lia.
+  - assert (In (pos leaves c) (concat gs)) as Icc by (apply Cov; apply pos_lt; assumption).
+    apply in_concat in Icc. destruct Icc as (g' & Ig' & Icg').
+    destruct (In_nth_error _ _ Ig') as [j Ej].
+    destruct (Forall2_nth_l _ _ _ _ _ F Ej) as (s' & Es' & [Ps' _]).
+    assert (i <> j) as Nij.
+    { intros ->. rewrite Ei in Ej. inversion Ej; subst g'.
+      assert (mem c (gl leaves g) = true) by (apply mem_in; apply in_gl; assumption). congruence. }
+    assert (In c (leaves_of s')) as Lc by (eapply Permutation_in; [symmetry; exact Ps'|apply in_gl; assumption]).
+    destruct (leaf_path_exists _ _ La) as [pa Ha]. destruct (leaf_path_exists _ _ Lb) as [pb Hb].
+    destruct (leaf_path_exists _ _ Lc) as [pc Hc].
+    exists (i :: pa), (i :: pb), (j :: pc). repeat split; try (econstructor; eassumption).
+    simpl. rewrite Nat.eqb_refl. apply Nat.eqb_neq in Nij. rewrite Nij. simpl. lia.
+Qed.
+
+Lemma base1 a triples : (forall tr, In tr triples -> proper [a] tr) ->
+  forall tr, In tr triples -> displays (Leaf a) tr.
+Proof.
+  intros Hp [[x y] z] I. destruct (Hp _ I) as ([<-|[]] & _ & [<-|[]] & N & _). congruence.
+Qed.
+
+Lemma base2 a b triples : NoDup [a; b] -> (forall tr, In tr triples -> proper [a; b] tr) ->
+  forall tr, In tr triples -> displays (Node [Leaf a; Leaf b]) tr.
+Proof.
+  intros NL Hp.
+  assert (leaf_path (Node [Leaf a; Leaf b]) a [0]) as Pa by (econstructor; [reflexivity|constructor]).
+  assert (leaf_path (Node [Leaf a; Leaf b]) b [1]) as Pb by (econstructor; [reflexivity|constructor]).
+  intros [[x y] z] I. destruct (Hp _ I) as (Ix & Iy & Iz & N1 & N2). simpl in Ix, Iy, Iz.
+  destruct Ix as [<-|[<-|[]]], Iy as [<-|[<-|[]]], Iz as [<-|[<-|[]]]; try congruence.
+  - exists [0], [0], [1]. repeat split; auto.
+  - exists [1], [1], [0]. repeat split; auto.
+Qed.
+
+Lemma filter_proper leaves triples g : (forall tr, In tr triples -> proper leaves tr) ->
+  forall tr, In tr (filter (inside (gl leaves g)) triples) -> proper (gl leaves g) tr.
+Proof.
+  intros Hp [[x y] z] I. apply filter_In in I. destruct I as [I M]. simpl in M.
+  apply andb_prop in M. destruct M as [M Mz]. apply andb_prop in M. destruct M as [Mx My].
+  apply mem_in in Mx, My, Mz. destruct (Hp _ I) as (_ & _ & _ & N1 & N2). repeat split; assumption.
+Qed.
+
+Lemma build_spec : forall fuel leaves triples,
+  length leaves <= fuel -> NoDup leaves -> (forall tr, In tr triples -> proper leaves tr) ->
+  build fuel leaves triples = Ok None \/
+  exists t, build fuel leaves triples = Ok (Some t) /\
+            Permutation (leaves_of t) leaves /\ forall tr, In tr triples -> displays t tr.
+Proof.
+  induction fuel as [|f IH]; intros leaves triples Lf NL Hp.
+  - destruct leaves; [left; reflexivity|simpl in Lf; lia].
+  - destruct leaves as [|a [|b [|c rest]]].
+    + left. reflexivity.
+    + right. exists (Leaf a). split; [reflexivity|]. split; [apply Permutation_refl|].
+      apply base1; assumption.
+    + right. exists (Node [Leaf a; Leaf b]). split; [reflexivity|]. split; [apply Permutation_refl|].
+      apply base2; assumption.
+    + remember (a :: b :: c :: rest) as leaves eqn:EL.
+      assert (build (S f) leaves triples =
+              (d <- unite_triples leaves triples (make (length leaves)) ;;
+               if (len d <=? 1)%Z then Ok None
+               else ' (_, gs) <- to_list d ;; build_groups (build f) leaves triples gs [])) as ->
+        by (subst leaves; reflexivity).
+      clear a b c rest EL.
+      destruct (unite_triples_reach leaves triples [] (make (length leaves)) (R_make _) Hp) as (d & -> & R).
+      simpl in R. simpl bind.
+      destruct (Z.leb_spec (len d) 1) as [Le|Gt]; [left; reflexivity|].
+      destruct (dsu_to_list _ _ _ R) as (d' & gs & -> & P & Ln & _). simpl bind.
+      pose proof P as (NE & ND & Cov & Q).
+      assert (2 <= length gs) as L2 by lia.
+      pose proof (partition_perm _ _ _ P) as PP.
+      assert (length (concat gs) = length leaves) as LC by (rewrite (Permutation_length PP), seq_length; reflexivity).
+      assert (forall g, In g gs -> forall i, In i g -> i < length leaves) as RANGE.
+      { intros g Ig i Ii. apply Cov. apply in_concat. eauto. }
+      destruct (build_groups_spec (build f) leaves triples gs []) as [E|(ss & E & F)].
+      { intros g Ig. split; [apply RANGE; assumption|].
+        assert (NoDup (gl leaves g)) as NG by (apply NoDup_gl; eauto using NoDup_concat_in).
+        destruct (IH (gl leaves g) (filter (inside (gl leaves g)) triples)) as [E|(s & E & Ps & Ds)]; auto.
+        - unfold gl. rewrite map_length. pose proof (group_smaller gs g NE L2 Ig). lia.
+        - apply filter_proper; assumption.
+        - right. exists s. split; [assumption|]. split; assumption. }
+      * left. assumption.
+      * right. exists (Node ss). simpl in E. split; [assumption|]. split.
+        -- simpl. eapply Permutation_trans; [eapply flat_map_perm; eassumption|].
+           unfold gl. eapply Permutation_trans; [apply Permutation_map; exact PP|].
+           rewrite map_nth_seq. apply Permutation_refl.
+        -- intros [[x y] z] I.
+           apply (node_displays leaves triples (eqv (map (idx leaves) triples)) gs ss x y z NL P F I (Hp _ I)).
+           apply eqv_pair. apply (in_map (idx leaves) _ _ I).
+Qed.
+
+(* --- build_sound --- *)
+Theorem build_sound leaves triples :
+  NoDup leaves -> (forall tr, In tr triples -> proper leaves tr) ->
+  tree_from_triples leaves triples = Ok None \/
+  exists t, tree_from_triples leaves triples = Ok (Some t) /\
+            Permutation (leaves_of t) leaves /\ forall tr, In tr triples -> displays t tr.
+Proof. intros. apply build_spec; auto. Qed.
+(* ------------------------------------------------ binary trees and clades *)
+Inductive bin : tree -> Prop :=
+| bin_leaf a : bin (Leaf a)
+| bin_node l r : bin l -> bin r -> bin (Node [l; r]).
+
+Inductive subtree : tree -> tree -> Prop :=
+| st_refl t : subtree t t
+| st_child s c cs : In c cs -> subtree s c -> subtree s (Node cs).
+
+Definition seteq (a b : list nat) : Prop := forall x, In x a <-> In x b.
+
+(* the two trees have the same clades (leaf sets of subtrees) *)
+Definition same_clades (t1 t2 : tree) : Prop :=
+  (forall s1, subtree s1 t1 -> exists s2, subtree s2 t2 /\ seteq (leaves_of s1) (leaves_of s2)) /\
+  (forall s2, subtree s2 t2 -> exists s1, subtree s1 t1 /\ seteq (leaves_of s1) (leaves_of s2)).
+
+(* no two elements of the list are related *)
+Inductive NoDupBy {A : Type} (E : A -> A -> Prop) : list A -> Prop :=
+| NDB_nil : NoDupBy E []
+| NDB_cons x l : (forall y, In y l -> ~ E x y) -> NoDupBy E l -> NoDupBy E (x :: l).
+
+Lemma NoDupBy_app {A} (E : A -> A -> Prop) l1 l2 :
+  NoDupBy E l1 -> NoDupBy E l2 -> (forall x y, In x l1 -> In y l2 -> ~ E x y) -> NoDupBy E (l1 ++ l2).
+Proof.
+  induction 1 as [|x l H ND IH]; intros N2 C; simpl; [assumption|]. constructor.
+  - intros y I. apply in_app_or in I. destruct I as [I|I]; [apply H; assumption|apply C; [left; reflexivity|assumption]].
+  - apply IH; [assumption|]. intros a b Ia Ib. apply C; [right; assumption|assumption].
+Qed.
+
+Lemma NoDupBy_map {A B} (E : B -> B -> Prop) (E' : A -> A -> Prop) (f : A -> B) l :
+  (forall x y, E (f x) (f y) -> E' x y) -> NoDupBy E' l -> NoDupBy E (map f l).
+Proof.
+  intros H. induction 1 as [|x l C ND IH]; simpl; constructor; [|assumption].
+  intros y I. apply in_map_iff in I. destruct I as (z & <- & I). intros Exy. apply (C z I). apply H. assumption.
+Qed.
+
+Lemma NoDupBy_nth {A} (E : A -> A -> Prop) l : (forall x, E x x) -> (forall x y, E x y -> E y x) ->
+  NoDupBy E l ->
+  forall i j x y, nth_error l i = Some x -> nth_error l j = Some y -> E x y -> i = j.
+Proof.
+  intros Rf Sy. induction 1 as [|h l C ND IH]; intros i j x y Hi Hj Exy; [destruct i; discriminate|].
+  destruct i as [|i], j as [|j]; simpl in *.
+  - reflexivity.
+  - inversion Hi; subst. exfalso. apply (C y); [eapply nth_error_In; eauto|assumption].
+  - inversion Hj; subst. exfalso. apply (C x); [eapply nth_error_In; eauto|apply Sy; assumption].
+  - f_equal. eapply IH; eauto.
+Qed.
+
+Lemma NoDupBy_of_nth {A} (E : A -> A -> Prop) l :
+  (forall i j x y, nth_error l i = Some x -> nth_error l j = Some y -> E x y -> i = j) -> NoDupBy E l.
+Proof.
+  induction l as [|h l IH]; intros H; constructor.
+  - intros y I Ehy. apply In_nth_error in I. destruct I as [j Ej].
+    specialize (H 0 (S j) h y eq_refl Ej Ehy). discriminate.
+  - apply IH. intros i j x y Hi Hj Exy. specialize (H (S i) (S j) x y Hi Hj Exy). lia.
+Qed.
+
+Lemma subtree_inv2 s l r : subtree s (Node [l; r]) -> s = Node [l; r] \/ subtree s l \/ subtree s r.
+Proof.
+  intros H. inversion H as [|? c ? I S]; subst; [left; reflexivity|right].
+  destruct I as [<-|[<-|[]]]; auto.
+Qed.
+
+Lemma subtree_leaves s t : subtree s t -> forall x, In x (leaves_of s) -> In x (leaves_of t).
+Proof.
+  induction 1 as [|s c cs I _ IH]; intros x Hx; [assumption|].
+  simpl. apply in_flat_map. exists c. split; [assumption|apply IH; assumption].
+Qed.
+
+Lemma subtree_bin s t : subtree s t -> bin t -> bin s.
+Proof.
+  induction 1 as [|s c cs I _ IH]; intros B; [assumption|].
+  inversion B; subst. destruct I as [<-|[<-|[]]]; auto.
+Qed.
+
+Lemma bin_has_leaf t : bin t -> exists x, In x (leaves_of t).
+Proof.
+  induction 1 as [a|l r _ [x Hx] _ _]; [exists a; left; reflexivity|].
+  exists x. simpl. apply in_or_app. left; assumption.
+Qed.
+
+Lemma same_clades_refl t : same_clades t t.
+Proof. split; intros s S; exists s; split; auto; intros x; tauto. Qed.
+
+Lemma same_clades_sym t t' : same_clades t t' -> same_clades t' t.
+Proof.
+  intros [A B]. split; intros s S.
+  - destruct (B s S) as (s' & S' & E). exists s'. split; [assumption|]. intros x. symmetry. apply E.
+  - destruct (A s S) as (s' & S' & E). exists s'. split; [assumption|]. intros x. symmetry. apply E.
+Qed.
+
+Section RootSplit.
+Variables l r l' r' : tree.
+Hypothesis Bl : bin l. Hypothesis Br : bin r. Hypothesis Bl' : bin l'. Hypothesis Br' : bin r'.
+Local Notation A := (leaves_of l). Local Notation B := (leaves_of r).
+Local Notation A' := (leaves_of l'). Local Notation B' := (leaves_of r').
+Hypothesis Dis : forall x, In x A -> ~ In x B.
+Hypothesis Dis' : forall x, In x A' -> ~ In x B'.
+Hypothesis SC : same_clades (Node [l; r]) (Node [l'; r']).
+
+Lemma leaves_node2 (u v : tree) x : In x (leaves_of (Node [u; v])) <-> In x (leaves_of u) \/ In x (leaves_of v).
+Proof. simpl. rewrite app_nil_r, in_app_iff. tauto. Qed.
+
+(* a child of one root lies within a child of the other *)
+Lemma child_within (u v u' v' c : tree) :
+  bin u -> bin v -> (forall x, In x (leaves_of u) -> ~ In x (leaves_of v)) ->
+  (forall s1, subtree s1 (Node [u; v]) -> exists s2, subtree s2 (Node [u'; v']) /\ seteq (leaves_of s1) (leaves_of s2)) ->
+  (c = u \/ c = v) ->
+  (exists s2, subtree s2 u' /\ seteq (leaves_of c) (leaves_of s2)) \/
+  (exists s2, subtree s2 v' /\ seteq (leaves_of c) (leaves_of s2)).
+Proof.
+  intros Bu Bv D H C.
+  assert (subtree c (Node [u; v])) as Sc
+    by (destruct C as [-> | ->]; (eapply st_child; [|apply st_refl]); simpl; auto).
+  destruct (H c Sc) as (s2 & S2 & E).
+  destruct (subtree_inv2 _ _ _ S2) as [-> |[S|S]]; [exfalso|left; eauto|right; eauto].
+  (* c would have all the leaves *)
+  assert (forall x, In x (leaves_of (Node [u; v])) -> In x (leaves_of c)) as ALL.
+  { intros x Hx. apply E.
+    assert (subtree (Node [u; v]) (Node [u; v])) as S0 by apply st_refl.
+    destruct (H _ S0) as (s3 & S3 & E3). apply (subtree_leaves _ _ S3). apply E3. assumption. }
+  destruct (bin_has_leaf _ Bu) as [xu Hu]. destruct (bin_has_leaf _ Bv) as [xv Hv].
+  destruct C as [-> | ->].
+  - apply (D xv); [|assumption]. apply ALL. apply leaves_node2. right; assumption.
+  - apply (D xu); [assumption|]. apply ALL. apply leaves_node2. left; assumption.
+Qed.
+
+Lemma root_split : (seteq A A' /\ seteq B B') \/ (seteq A B' /\ seteq B A').
+Proof.
+  destruct SC as [F G].
+  assert (forall x, In x A \/ In x B <-> In x A' \/ In x B') as U.
+  { intros x. rewrite <- !leaves_node2.
+    destruct (F _ (st_refl _)) as (s2 & S2 & E2). destruct (G _ (st_refl _)) as (s1 & S1 & E1). split; intros Hx.
+    - apply (subtree_leaves _ _ S2). apply E2. assumption.
+    - apply (subtree_leaves _ _ S1). apply E1. assumption. }
+  assert (forall (X Y : list nat) t s2, seteq X (leaves_of s2) -> subtree s2 t -> Y = leaves_of t -> forall x, In x X -> In x Y) as SUB.
+  { intros X Y t s2 E S -> x Hx. apply (subtree_leaves _ _ S). apply E. assumption. }
+  destruct (bin_has_leaf _ Bl) as [xa Ha]. destruct (bin_has_leaf _ Br) as [xb Hb].
+  destruct (bin_has_leaf _ Bl') as [xa' Ha']. destruct (bin_has_leaf _ Br') as [xb' Hb'].
+  destruct (child_within l r l' r' l Bl Br Dis F (or_introl eq_refl)) as [(s & S & E)|(s & S & E)];
+  destruct (child_within l r l' r' r Bl Br Dis F (or_intror eq_refl)) as [(t & T & E')|(t & T & E')].
+  - (* A, B both inside A' *) exfalso. apply (Dis' xb'); [|assumption].
+    destruct (proj2 (U xb') (or_intror Hb')) as [I|I]; [eapply (SUB A A' l' s); eauto|eapply (SUB B A' l' t); eauto].
+  - left. assert (forall x, In x A -> In x A') as AA by (eapply SUB; eauto).
+    assert (forall x, In x B -> In x B') as BB by (eapply SUB; eauto).
+    split; intros x; split; auto; intros Hx.
+    + destruct (proj2 (U x) (or_introl Hx)) as [I|I]; [assumption|]. exfalso. apply (Dis' x); auto.
+    + destruct (proj2 (U x) (or_intror Hx)) as [I|I]; [|assumption]. exfalso. apply (Dis' x); auto.
+  - right. assert (forall x, In x A -> In x B') as AB by (eapply SUB; eauto).
+    assert (forall x, In x B -> In x A') as BA by (eapply SUB; eauto).
+    split; intros x; split; auto; intros Hx.
+    + destruct (proj2 (U x) (or_intror Hx)) as [I|I]; [assumption|]. exfalso. apply (Dis' x); auto.
+    + destruct (proj2 (U x) (or_introl Hx)) as [I|I]; [|assumption]. exfalso. apply (Dis' x); auto.
+  - exfalso. apply (Dis' xa'); [assumption|].
+    destruct (proj2 (U xa') (or_introl Ha')) as [I|I]; [eapply (SUB A B' r' s); eauto|eapply (SUB B B' r' t); eauto].
+Qed.
+
+End RootSplit.
+(* when the root splits agree, the children have the same clades *)
+Lemma within_child T T' u v u' v' :
+  (T = Node [u; v] \/ T = Node [v; u]) -> (T' = Node [u'; v'] \/ T' = Node [v'; u']) ->
+  bin u -> bin v -> (forall x, In x (leaves_of u) -> ~ In x (leaves_of v)) ->
+  seteq (leaves_of u) (leaves_of u') -> seteq (leaves_of v) (leaves_of v') ->
+  (forall s1, subtree s1 T -> exists s2, subtree s2 T' /\ seteq (leaves_of s1) (leaves_of s2)) ->
+  forall s1, subtree s1 u -> exists s2, subtree s2 u' /\ seteq (leaves_of s1) (leaves_of s2).
+Proof.
+  intros HT HT' Bu Bv D EU EV H s1 S1.
+  assert (subtree s1 T) as S1T.
+  { destruct HT as [-> | ->]; eapply st_child; try exact S1; simpl; auto. }
+  destruct (H s1 S1T) as (s2 & S2 & E).
+  destruct (bin_has_leaf _ (subtree_bin _ _ S1 Bu)) as [x Hx].
+  assert (In x (leaves_of u)) as Hxu by (eapply subtree_leaves; eauto).
+  destruct (bin_has_leaf _ Bv) as [xv Hv].
+  assert (s2 = T' \/ subtree s2 u' \/ subtree s2 v') as [-> |[S|S]].
+  { destruct HT' as [-> | ->]; destruct (subtree_inv2 _ _ _ S2) as [?|[?|?]]; auto. }
+  - exfalso. apply (D xv); [|assumption].
+    apply (subtree_leaves _ _ S1). apply E.
+    apply EV in Hv. destruct HT' as [-> | ->]; simpl; rewrite app_nil_r; apply in_or_app; auto.
+  - eauto.
+  - exfalso. apply (D x); [assumption|]. apply EV. apply (subtree_leaves _ _ S). apply E. assumption.
+Qed.
+
+Lemma children_same l r l' r' : bin l -> bin r -> bin l' -> bin r' ->
+  (forall x, In x (leaves_of l) -> ~ In x (leaves_of r)) ->
+  seteq (leaves_of l) (leaves_of l') -> seteq (leaves_of r) (leaves_of r') ->
+  same_clades (Node [l; r]) (Node [l'; r']) -> same_clades l l' /\ same_clades r r'.
+Proof.
+  intros Bl Br Bl' Br' D EL ER [F G].
+  assert (forall x, In x (leaves_of r) -> ~ In x (leaves_of l)) as D2 by (intros x Hr Hl; apply (D x); assumption).
+  assert (forall x, In x (leaves_of l') -> ~ In x (leaves_of r')) as D' by (intros x Hl Hr; apply (D x); [apply EL|apply ER]; assumption).
+  assert (forall x, In x (leaves_of r') -> ~ In x (leaves_of l')) as D2' by (intros x Hr Hl; apply (D' x); assumption).
+  assert (forall a b, seteq a b -> seteq b a) as SY by (intros a b E x; symmetry; apply E).
+  assert (forall s2, subtree s2 (Node [l'; r']) -> exists s1, subtree s1 (Node [l; r]) /\ seteq (leaves_of s2) (leaves_of s1)) as G'.
+  { intros s2 S2. destruct (G s2 S2) as (s1 & S1 & E). exists s1. split; auto. }
+  split; split.
+  - apply (within_child (Node [l; r]) (Node [l'; r']) l r l' r' (or_introl eq_refl) (or_introl eq_refl) Bl Br D EL ER F).
+  - intros s2 S2. destruct (within_child _ _ l' r' l r (or_introl eq_refl) (or_introl eq_refl) Bl' Br' D' (SY _ _ EL) (SY _ _ ER) G' s2 S2)
+      as (s1 & S1 & E). exists s1. split; auto.
+  - apply (within_child (Node [l; r]) (Node [l'; r']) r l r' l' (or_intror eq_refl) (or_intror eq_refl) Br Bl D2 ER EL F).
+  - intros s2 S2. destruct (within_child _ _ r' l' r l (or_intror eq_refl) (or_intror eq_refl) Br' Bl' D2' (SY _ _ ER) (SY _ _ EL) G' s2 S2)
+      as (s1 & S1 & E). exists s1. split; auto.
+Qed.
+
+Lemma NoDupBy_map_in {A B} (E : B -> B -> Prop) (E' : A -> A -> Prop) (f : A -> B) l :
+  (forall x y, In x l -> In y l -> E (f x) (f y) -> E' x y) -> NoDupBy E' l -> NoDupBy E (map f l).
+Proof.
+  intros H ND. induction ND as [|x l C ND IH]; simpl; constructor.
+  - intros y I. apply in_map_iff in I. destruct I as (z & <- & I). intros Exy.
+    apply (C z I). apply H; [left; reflexivity|right; assumption|assumption].
+  - apply IH. intros a b Ia Ib. apply H; right; assumption.
+Qed.
+
+Lemma in_product ls rs t : In t (product_trees ls rs) <-> exists l r, In l ls /\ In r rs /\ t = Node [l; r].
+Proof.
+  unfold product_trees. rewrite in_flat_map. split.
+  - intros (l & Il & I). apply in_map_iff in I. destruct I as (r & <- & Ir). eauto.
+  - intros (l & r & Il & Ir & ->). exists l. split; [assumption|]. apply (in_map (fun r0 => Node [l; r0])). assumption.
+Qed.
+
+Lemma NoDupBy_product ls rs (A0 B0 : list nat) :
+  NoDupBy same_clades ls -> NoDupBy same_clades rs ->
+  (forall l, In l ls -> bin l /\ seteq (leaves_of l) A0) ->
+  (forall r, In r rs -> bin r /\ seteq (leaves_of r) B0) ->
+  (forall x, In x A0 -> ~ In x B0) ->
+  NoDupBy same_clades (product_trees ls rs).
+Proof.
+  intros NL NR HL HR D.
+  assert (forall l r l' r', In l ls -> In l' ls -> In r rs -> In r' rs ->
+            same_clades (Node [l; r]) (Node [l'; r']) -> same_clades l l' /\ same_clades r r') as CS.
+  { intros l r l' r' Il Il' Ir Ir' S.
+    destruct (HL l Il) as [Bl El]. destruct (HL l' Il') as [Bl' El'].
+    destruct (HR r Ir) as [Br Er]. destruct (HR r' Ir') as [Br' Er'].
+    apply children_same; auto.
+    - intros x Hl Hr. apply (D x); [apply El|apply Er]; assumption.
+    - intros x. rewrite (El x), (El' x). tauto.
+    - intros x. rewrite (Er x), (Er' x). tauto. }
+  clear HL HR D. revert CS. induction NL as [|l ls C NL IH]; intros CS; [constructor|].
+  change (product_trees (l :: ls) rs) with (map (fun r => Node [l; r]) rs ++ product_trees ls rs).
+  apply NoDupBy_app.
+  - apply (NoDupBy_map_in _ same_clades); [|assumption].
+    intros r r' Ir Ir' S. apply (CS l r l r'); simpl; auto.
+  - apply IH. intros a b a' b' Ia Ia'. apply CS; right; assumption.
+  - intros x y Ix Iy S. apply in_map_iff in Ix. destruct Ix as (r & <- & Ir).
+    apply in_product in Iy. destruct Iy as (l' & r' & Il' & Ir' & ->).
+    apply (C l' Il'). apply (CS l r l' r'); simpl; auto.
+Qed.
+
+(* ----------------------------------------------------- all_trees_from_triples *)
+Definition good (L : list nat) (T : list triple) (t : tree) : Prop :=
+  bin t /\ Permutation (leaves_of t) L /\ forall tr, In tr T -> displays t tr.
+
+Section AllTrees.
+Variable leaves : list nat.
+Variable triples : list triple.
+Hypothesis NL : NoDup leaves.
+Hypothesis Hp : forall tr, In tr triples -> proper leaves tr.
+Local Notation n := (length leaves).
+
+Definition from_bin (b : dsu) (t : tree) : Prop :=
+  exists d' g0 g1 l r, to_list b = Ok (d', [g0; g1]) /\ t = Node [l; r] /\ bin l /\ bin r /\
+    Permutation (leaves_of l) (gl leaves g0) /\ Permutation (leaves_of r) (gl leaves g1).
+
+Lemma nth_pos i : i < n -> pos leaves (nth i leaves 0) = i.
+Proof.
+  intros Hi. assert (In (nth i leaves 0) leaves) as I by (apply nth_In; assumption).
+  destruct (lookup_pos leaves _ I) as [_ E].
+  apply (proj1 (NoDup_nth leaves 0) NL); auto using pos_lt. apply nth_error_nth. assumption.
+Qed.
+
+Lemma gl_seteq g g' : (forall i, In i g -> i < n) -> (forall i, In i g' -> i < n) ->
+  seteq (gl leaves g) (gl leaves g') -> seteq g g'.
+Proof.
+  assert (forall g g', (forall i, In i g -> i < n) -> (forall i, In i g' -> i < n) ->
+            (forall x, In x (gl leaves g) -> In x (gl leaves g')) -> forall i, In i g -> In i g') as ONE.
+  { intros h h' R R' S i Ii. rewrite <- (nth_pos i (R i Ii)). apply gl_in_pos; auto.
+    apply S. apply (in_map (fun j => nth j leaves 0)). assumption. }
+  intros R R' S i. split; apply ONE; auto; intros x; apply S.
+Qed.
+
+Lemma same_two_partition (R R' : nat -> nat -> Prop) g0 g1 g0' g1' :
+  is_partition n R [g0; g1] -> is_partition n R' [g0'; g1'] ->
+  (seteq (gl leaves g0) (gl leaves g0') /\ seteq (gl leaves g1) (gl leaves g1')) \/
+  (seteq (gl leaves g0) (gl leaves g1') /\ seteq (gl leaves g1) (gl leaves g0')) ->
+  forall x y, x < n -> y < n -> (R x y <-> R' x y).
+Proof.
+  intros (_ & _ & Cov & Q) (_ & _ & Cov' & Q') H x y Hx Hy.
+  assert (forall g, In g [g0; g1] -> forall i, In i g -> i < n) as RG
+    by (intros g Ig i Ii; apply Cov; apply in_concat; eauto).
+  assert (forall g, In g [g0'; g1'] -> forall i, In i g -> i < n) as RG'
+    by (intros g Ig i Ii; apply Cov'; apply in_concat; eauto).
+  rewrite (Q x y Hx Hy), (Q' x y Hx Hy).
+  assert ((seteq g0 g0' /\ seteq g1 g1') \/ (seteq g0 g1' /\ seteq g1 g0')) as [[E0 E1]|[E0 E1]].
+  { assert (forall g g', In g [g0; g1] -> In g' [g0'; g1'] -> seteq (gl leaves g) (gl leaves g') -> seteq g g') as GS
+      by (intros g g' Ig Ig' E; apply gl_seteq; [apply (RG g Ig)|apply (RG' g' Ig')|exact E]).
+    destruct H as [[A B]|[A B]]; [left|right]; split; apply GS; simpl; auto. }
+  - split; intros (g & [<-|[<-|[]]] & Ix & Iy).
+    + exists g0'. simpl. rewrite <- !(E0 _). auto.
+    + exists g1'. simpl. rewrite <- !(E1 _). auto.
+    + exists g0. simpl. rewrite !(E0 _). auto.
+    + exists g1. simpl. rewrite !(E1 _). auto.
+  - split; intros (g & [<-|[<-|[]]] & Ix & Iy).
+    + exists g1'. simpl. rewrite <- !(E0 _). auto.
+    + exists g0'. simpl. rewrite <- !(E1 _). auto.
+    + exists g1. simpl. rewrite !(E1 _). auto.
+    + exists g0. simpl. rewrite !(E0 _). auto.
+Qed.
+
+Lemma represents_two b R : represents n b R -> len b = 2%Z ->
+  exists d' g0 g1, to_list b = Ok (d', [g0; g1]) /\ is_partition n R [g0; g1].
+Proof.
+  intros (d' & l & T & P & Ln) L2. rewrite L2 in Ln.
+  destruct l as [|g0 [|g1 [|g2 l]]]; simpl in Ln; try lia. eauto.
+Qed.
+
+Lemma represents_ext b (R R' : nat -> nat -> Prop) :
+  (forall x y, x < n -> y < n -> (R x y <-> R' x y)) -> represents n b R -> represents n b R'.
+Proof.
+  intros E (d' & l & T & (P1 & P2 & P3 & P4) & Ln). exists d', l. split; [assumption|]. split; [|assumption].
+  repeat (split; [assumption|]). intros x y Hx Hy. rewrite <- (E x y Hx Hy). auto.
+Qed.
+
+Lemma NoDup_app_disj {A} (a b : list A) x : NoDup (a ++ b) -> In x a -> In x b -> False.
+Proof.
+  induction a as [|y a IH]; simpl; intros ND Ia Ib; [destruct Ia|].
+  inversion ND as [|? ? NI ND']; subst. destruct Ia as [->|Ia]; [apply NI; apply in_or_app; right; assumption|auto].
+Qed.
+
+Lemma two_partition_facts (R : nat -> nat -> Prop) g0 g1 : is_partition n R [g0; g1] ->
+  (forall i, In i g0 -> i < n) /\ (forall i, In i g1 -> i < n) /\ NoDup g0 /\ NoDup g1 /\
+  g0 <> [] /\ g1 <> [] /\
+  (forall x, In x (gl leaves g0) -> ~ In x (gl leaves g1)).
+Proof.
+  intros (NE & ND & Cov & _). simpl in ND, Cov. rewrite app_nil_r in ND, Cov.
+  assert (forall i, In i g0 -> i < n) as R0 by (intros i Ii; apply Cov; apply in_or_app; auto).
+  assert (forall i, In i g1 -> i < n) as R1 by (intros i Ii; apply Cov; apply in_or_app; auto).
+  destruct (NoDup_app_inv _ _ ND) as [N0 N1].
+  repeat (split; [solve [auto | apply NE; simpl; auto]|]).
+  intros x H0 H1. apply (gl_in_pos leaves g0 x NL R0) in H0. apply (gl_in_pos leaves g1 x NL R1) in H1.
+  eapply NoDup_app_disj; eauto.
+Qed.
+
+(* trees built from two different bipartitions differ in their clades *)
+Lemma from_bin_cross b b' t t' R R' :
+  represents n b R -> len b = 2%Z -> represents n b' R' -> len b' = 2%Z ->
+  from_bin b t -> from_bin b' t' -> same_clades t t' ->
+  exists R0, represents n b R0 /\ represents n b' R0.
+Proof.
+  intros Rb Lb Rb' Lb' (d1 & g0 & g1 & l & r & T & -> & Bl & Br & Pl & Pr)
+         (d1' & g0' & g1' & l' & r' & T' & -> & Bl' & Br' & Pl' & Pr') SC.
+  destruct (represents_two _ _ Rb Lb) as (d2 & h0 & h1 & T2 & P). rewrite T in T2. inversion T2; subst h0 h1.
+  destruct (represents_two _ _ Rb' Lb') as (d2' & h0 & h1 & T2' & P'). rewrite T' in T2'. inversion T2'; subst h0 h1.
+  exists R. split; [assumption|]. apply (represents_ext b' R'); [|assumption].
+  intros x y Hx Hy. symmetry. revert x y Hx Hy. apply (same_two_partition R R' g0 g1 g0' g1' P P').
+  assert (forall g u, Permutation (leaves_of u) (gl leaves g) -> forall x, In x (leaves_of u) <-> In x (gl leaves g)) as PI.
+  { intros g u Pu x. split; apply Permutation_in; [assumption|symmetry; assumption]. }
+  destruct (two_partition_facts _ _ _ P) as (_ & _ & _ & _ & _ & _ & D).
+  destruct (two_partition_facts _ _ _ P') as (_ & _ & _ & _ & _ & _ & D').
+  destruct (root_split l r l' r' Bl Br Bl' Br') as [[E0 E1]|[E0 E1]]; auto.
+  - intros x Hl Hr. apply (D x); [apply (PI g0 l Pl)|apply (PI g1 r Pr)]; assumption.
+  - intros x Hl Hr. apply (D' x); [apply (PI g0' l' Pl')|apply (PI g1' r' Pr')]; assumption.
+  - left. split; intros x.
+    + rewrite <- (PI g0 l Pl x), <- (PI g0' l' Pl' x). apply E0.
+    + rewrite <- (PI g1 r Pr x), <- (PI g1' r' Pr' x). apply E1.
+  - right. split; intros x.
+    + rewrite <- (PI g0 l Pl x), <- (PI g1' r' Pr' x). apply E0.
+    + rewrite <- (PI g1 r Pr x), <- (PI g0' l' Pl' x). apply E1.
+Qed.
+
+End AllTrees.
+Lemma node_leaves_perm leaves triples (R : nat -> nat -> Prop) gs ss :
+  is_partition (length leaves) R gs -> Forall2 (sub_ok leaves triples) gs ss ->
+  Permutation (leaves_of (Node ss)) leaves.
+Proof.
+  intros P F. simpl. eapply Permutation_trans; [eapply flat_map_perm; eassumption|].
+  unfold gl. eapply Permutation_trans; [apply Permutation_map; exact (partition_perm _ _ _ P)|].
+  rewrite map_nth_seq. apply Permutation_refl.
+Qed.
+
+Section AllBins.
+Variable leaves : list nat.
+Variable triples : list triple.
+Hypothesis NL : NoDup leaves.
+Hypothesis Hp : forall tr, In tr triples -> proper leaves tr.
+Local Notation n := (length leaves).
+Variable rec : list nat -> list triple -> res (list tree).
+Hypothesis Hrec : forall g, NoDup g -> (forall i, In i g -> i < n) -> length g < n ->
+  exists ts, rec (gl leaves g) (filter (inside (gl leaves g)) triples) = Ok ts /\
+             Forall (good (gl leaves g) (filter (inside (gl leaves g)) triples)) ts /\
+             NoDupBy same_clades ts.
+
+Definition same_rep (b b' : dsu) : Prop := exists R0, represents n b R0 /\ represents n b' R0.
+
+Lemma all_bins_spec : forall bins,
+  (forall b, In b bins -> exists R : nat -> nat -> Prop, represents n b R /\ len b = 2%Z /\
+       forall x y z, In (x, y, z) triples -> R (pos leaves x) (pos leaves y)) ->
+  NoDupBy same_rep bins ->
+  exists ts, all_bins rec leaves triples bins = Ok ts /\
+             Forall (good leaves triples) ts /\ NoDupBy same_clades ts /\
+             Forall (fun t => exists b, In b bins /\ from_bin leaves b t) ts.
+Proof.
+  induction bins as [|b rest IH]; intros H1 H3.
+  - exists []. repeat split; constructor.
+  - inversion H3 as [|? ? C3 H3']; subst.
+    destruct (IH (fun b' I => H1 b' (or_intror I)) H3') as (more & Em & Gm & Nm & Fm).
+    destruct (H1 b (or_introl eq_refl)) as (R & Rb & Lb & RT).
+    destruct (represents_two leaves b R Rb Lb) as (d' & g0 & g1 & T & P).
+    destruct (two_partition_facts leaves NL R g0 g1 P) as (R0 & R1 & N0 & N1 & NE0 & NE1 & D).
+    assert (length g0 < n /\ length g1 < n) as [L0 L1].
+    { pose proof (Permutation_length (partition_perm _ _ _ P)) as LC. rewrite seq_length in LC.
+      destruct P as (NE & _). split; rewrite <- LC; apply group_smaller; simpl; auto. }
+    destruct (Hrec g0 N0 R0 L0) as (ls & El & Gl & Nl). destruct (Hrec g1 N1 R1 L1) as (rs & Er & Gr & Nr).
+    assert (all_bins rec leaves triples (b :: rest) = Ok (product_trees ls rs ++ more)) as E.
+    { simpl. rewrite T. simpl. rewrite (get_all_ok leaves g0 R0). simpl. rewrite (get_all_ok leaves g1 R1). simpl.
+      fold (gl leaves g0). fold (gl leaves g1). rewrite El. simpl. rewrite Er. simpl. rewrite Em. reflexivity. }
+    rewrite Forall_forall in Gl, Gr.
+    assert (forall l r, In l ls -> In r rs -> Forall2 (sub_ok leaves triples) [g0; g1] [l; r]) as SUB.
+    { intros l r Il Ir. destruct (Gl l Il) as (_ & Pl & Dl). destruct (Gr r Ir) as (_ & Pr & Dr).
+      repeat constructor; assumption. }
+    exists (product_trees ls rs ++ more). split; [assumption|]. split; [|split].
+    + apply Forall_app. split; [|assumption]. apply Forall_forall. intros t It.
+      apply in_product in It. destruct It as (l & r & Il & Ir & ->).
+      split; [constructor; [apply (Gl l Il)|apply (Gr r Ir)]|]. split.
+      * eapply node_leaves_perm; eauto.
+      * intros [[x y] z] I. eapply (node_displays leaves triples R); eauto.
+    + apply NoDupBy_app; [|assumption|].
+      * apply (NoDupBy_product ls rs (gl leaves g0) (gl leaves g1)); auto.
+        -- intros l Il. destruct (Gl l Il) as (Bl & Pl & _). split; [assumption|].
+           intros x. split; apply Permutation_in; [assumption|symmetry; assumption].
+        -- intros r Ir. destruct (Gr r Ir) as (Br & Pr & _). split; [assumption|].
+           intros x. split; apply Permutation_in; [assumption|symmetry; assumption].
+      * intros t t' It It' SC. apply in_product in It. destruct It as (l & r & Il & Ir & ->).
+        rewrite Forall_forall in Fm. destruct (Fm t' It') as (b' & Ib' & FB').
+        destruct (H1 b' (or_intror Ib')) as (R' & Rb' & Lb' & _).
+        apply (C3 b' Ib').
+        apply (from_bin_cross leaves NL b b' (Node [l; r]) t' R R'); auto.
+        exists d', g0, g1, l, r. destruct (Gl l Il) as (Bl & Pl & _). destruct (Gr r Ir) as (Br & Pr & _).
+        repeat split; assumption.
+    + apply Forall_app. split.
+      * apply Forall_forall. intros t It. apply in_product in It. destruct It as (l & r & Il & Ir & ->).
+        exists b. split; [left; reflexivity|].
+        exists d', g0, g1, l, r. destruct (Gl l Il) as (Bl & Pl & _). destruct (Gr r Ir) as (Br & Pr & _).
+        repeat split; assumption.
+      * eapply Forall_impl; [|exact Fm]. intros t (b' & Ib' & FB'). exists b'. split; [right; assumption|assumption].
+Qed.
+
+End AllBins.
+
+Lemma all_trees_aux_spec ord : set_order ord -> forall fuel leaves triples,
+  length leaves <= fuel -> NoDup leaves -> (forall tr, In tr triples -> proper leaves tr) ->
+  exists ts, all_trees_aux ord fuel leaves triples = Ok ts /\
+             Forall (good leaves triples) ts /\ NoDupBy same_clades ts.
+Proof.
+  intros SO. induction fuel as [|f IH]; intros leaves triples Lf NL Hp.
+  - destruct leaves; [|simpl in Lf; lia]. exists []. repeat split; constructor.
+  - destruct leaves as [|a [|b [|c rest]]].
+    + exists []. repeat split; constructor.
+    + exists [Leaf a]. split; [reflexivity|]. split.
+      * constructor; [|constructor]. split; [constructor|]. split; [apply Permutation_refl|apply base1; assumption].
+      * constructor; [intros y []|constructor].
+    + exists [Node [Leaf a; Leaf b]]. split; [reflexivity|]. split.
+      * constructor; [|constructor]. split; [repeat constructor|]. split; [apply Permutation_refl|apply base2; assumption].
+      * constructor; [intros y []|constructor].
+    + remember (a :: b :: c :: rest) as leaves eqn:EL.
+      assert (all_trees_aux ord (S f) leaves triples =
+              (d <- unite_triples leaves triples (make (length leaves)) ;;
+               ' (_, bins) <- binary ord d ;;
+               all_bins (all_trees_aux ord f) leaves triples bins)) as ->
+        by (subst leaves; reflexivity).
+      clear a b c rest EL.
+      destruct (unite_triples_reach leaves triples [] (make (length leaves)) (R_make _) Hp) as (d & -> & R).
+      simpl in R. simpl bind.
+      destruct (dsu_binary _ _ _ ord R SO) as (d1 & bs & -> & _ & Sound & _ & Once). simpl bind.
+      destruct (all_bins_spec leaves triples NL Hp (all_trees_aux ord f)) with (bins := bs) as (ts & E & G & N & _).
+      * intros g Ng Rg Lg. apply IH.
+        -- unfold gl. rewrite map_length. lia.
+        -- apply NoDup_gl; assumption.
+        -- apply filter_proper; assumption.
+      * intros b0 Ib. destruct (Sound b0 Ib) as (L2 & s & (S1 & _) & Rs).
+        exists (fun x y => s x = s y). split; [assumption|]. split; [assumption|].
+        intros x y z I. destruct (Hp _ I) as (Ix & Iy & _).
+        apply S1; auto using pos_lt. apply eqv_pair. apply (in_map (idx leaves) _ _ I).
+      * apply NoDupBy_of_nth. intros i j bi bj Ei Ej (R0 & Ri & Rj). eapply Once; eauto.
+      * exists ts. auto.
+Qed.
+
+(* --- all_trees_sound_nodup --- *)
+Theorem all_trees_sound_nodup ord leaves triples :
+  set_order ord -> NoDup leaves -> (forall tr, In tr triples -> proper leaves tr) ->
+  exists ts, all_trees ord leaves triples = Ok ts /\
+    Forall (fun t => bin t /\ Permutation (leaves_of t) leaves /\
+                     forall tr, In tr triples -> displays t tr) ts /\
+    NoDupBy same_clades ts.
+Proof.
+  intros SO NL Hp. unfold all_trees.
+  destruct (build_sound leaves triples NL Hp) as [-> |(t & -> & _)]; simpl.
+  - exists []. repeat split; constructor.
+  - apply all_trees_aux_spec; auto.
+Qed.
+
+Corollary all_trees_once ord leaves triples ts :
+  set_order ord -> NoDup leaves -> (forall tr, In tr triples -> proper leaves tr) ->
+  all_trees ord leaves triples = Ok ts ->
+  forall i j ti tj, nth_error ts i = Some ti -> nth_error ts j = Some tj -> same_clades ti tj -> i = j.
+Proof.
+  intros SO NL Hp E. destruct (all_trees_sound_nodup ord leaves triples SO NL Hp) as (ts' & E' & _ & N).
+  rewrite E in E'. inversion E'; subst ts'.
+  apply (NoDupBy_nth same_clades ts); auto using same_clades_refl, same_clades_sym.
+Qed.
+(* ------------------------------------------------------------ build_complete *)
+Fixpoint child_idx (cs : list tree) (x : nat) : nat :=
+  match cs with
+  | [] => 0
+  | c :: r => if mem x (leaves_of c) then 0 else S (child_idx r x)
+  end.
+
+Lemma child_idx_path : forall cs x i p, NoDup (flat_map leaves_of cs) ->
+  leaf_path (Node cs) x (i :: p) -> child_idx cs x = i.
+Proof.
+  intros cs x i p ND H. inversion H as [|? ? c ? ? E Hp]; subst.
+  apply leaf_path_in in Hp. clear H. revert i E ND.
+  induction cs as [|c0 cs IH]; intros [|i] E ND; simpl in *; try discriminate.
+  - inversion E; subst. rewrite (proj2 (mem_in x _) Hp). reflexivity.
+  - destruct (mem x (leaves_of c0)) eqn:M.
+    + exfalso. apply mem_in in M. apply (NoDup_app_disj _ _ x ND M).
+      apply in_flat_map. exists c. split; [eapply nth_error_In; eauto|assumption].
+    + f_equal. apply IH; [assumption|]. apply NoDup_app_inv in ND. tauto.
+Qed.
+
+Lemma NoDup_child cs i c : NoDup (flat_map leaves_of cs) -> nth_error cs i = Some c -> NoDup (leaves_of c).
+Proof.
+  revert i. induction cs as [|c0 cs IH]; intros [|i] ND E; simpl in *; try discriminate;
+    apply NoDup_app_inv in ND; destruct ND as [N0 N1].
+  - inversion E; subst. assumption.
+  - eapply IH; eauto.
+Qed.
+
+Lemma all_or_one {A} (f : A -> bool) (l : list A) :
+  (forall x, In x l -> f x = true) \/ (exists x, In x l /\ f x = false).
+Proof.
+  induction l as [|a l [IH|(x & I & F)]].
+  - left. intros x [].
+  - destruct (f a) eqn:E; [left|right; exists a; split; [left; reflexivity|assumption]].
+    intros x [<-|I]; auto.
+  - right. exists x. split; [right; assumption|assumption].
+Qed.
+
+(* a displaying tree separates two of the leaves by a function that every triple respects *)
+Lemma separated : forall T, NoDup (leaves_of T) ->
+  forall (L : list nat) (triples : list triple) x0 y0,
+  In x0 L -> In y0 L -> x0 <> y0 -> (forall x, In x L -> In x (leaves_of T)) ->
+  (forall tr, In tr triples -> proper L tr /\ displays T tr) ->
+  exists inv : nat -> nat,
+    (forall a b c, In (a, b, c) triples -> inv a = inv b) /\
+    exists x y, In x L /\ In y L /\ inv x <> inv y.
+Proof.
+  induction T as [a|cs IH] using tree_ind'; intros ND L triples x0 y0 Ix Iy Nxy Inc Ht.
+  - exfalso. apply Nxy. destruct (Inc x0 Ix) as [<-|[]]. destruct (Inc y0 Iy) as [<-|[]]. reflexivity.
+  - simpl in ND.
+    assert (forall x, In x L -> exists p, leaf_path (Node cs) x (child_idx cs x :: p)) as PATH.
+    { intros x I. destruct (leaf_path_exists _ _ (Inc x I)) as [p Hp].
+      inversion Hp as [|? i c ? q E Hq]; subst. rewrite (child_idx_path cs x i q ND Hp). eauto. }
+    destruct (all_or_one (fun x => child_idx cs x =? child_idx cs x0) L) as [ALL|(x & I & F)].
+    + (* all the leaves below one child: descend *)
+      destruct (PATH x0 Ix) as [p0 H0]. inversion H0 as [|? ? c0 ? ? E0 _]; subst.
+      rewrite Forall_forall in IH.
+      apply (IH c0 (nth_error_In _ _ E0) (NoDup_child _ _ _ ND E0) L triples x0 y0); auto.
+      * intros x I. destruct (PATH x I) as [p H]. pose proof (ALL x I) as Ax. apply Nat.eqb_eq in Ax. rewrite Ax in H.
+        inversion H as [|? ? c ? ? E Hq]; subst. rewrite E0 in E. inversion E; subst. eapply leaf_path_in; eauto.
+      * intros [[a b] c] It. destruct (Ht _ It) as [Pr (pa & pb & pc & Ha & Hb & Hc & Lt)]. split; [assumption|].
+        destruct Pr as (Ia & Ib & Ic & _).
+        assert (forall z pz, In z L -> leaf_path (Node cs) z pz ->
+                  exists q, pz = child_idx cs x0 :: q /\ leaf_path c0 z q) as SUBP.
+        { intros z pz Iz Hz. inversion Hz as [|? i cz ? q E Hq]; subst.
+          pose proof (child_idx_path cs z i q ND Hz) as Ci. pose proof (ALL z Iz) as Az. apply Nat.eqb_eq in Az.
+          rewrite Az in Ci. subst i. rewrite E0 in E. inversion E; subst. eauto. }
+        destruct (SUBP a pa Ia Ha) as (qa & -> & Ha'). destruct (SUBP b pb Ib Hb) as (qb & -> & Hb').
+        destruct (SUBP c pc Ic Hc) as (qc & -> & Hc').
+        exists qa, qb, qc. repeat split; auto. simpl in Lt. rewrite Nat.eqb_refl in Lt. simpl in Lt. lia.
+    + (* two children are used *)
+      exists (child_idx cs). split.
+      * intros a b c It. destruct (Ht _ It) as [_ (pa & pb & pc & Ha & Hb & _ & Lt)].
+        destruct pa as [|i pa]; [inversion Ha|]. destruct pb as [|j pb]; [inversion Hb|].
+        simpl in Lt. destruct (Nat.eqb_spec i j) as [->|N]; [|simpl in Lt; lia].
+        rewrite (child_idx_path cs a j pa ND Ha), (child_idx_path cs b j pb ND Hb). reflexivity.
+      * exists x, x0. split; [assumption|]. split; [assumption|]. apply Nat.eqb_neq. assumption.
+Qed.
+
+Lemma eqv_respects leaves triples (inv : nat -> nat) :
+  (forall tr, In tr triples -> proper leaves tr) ->
+  (forall a b c, In (a, b, c) triples -> inv a = inv b) ->
+  forall i j, eqv (map (idx leaves) triples) i j -> inv (nth i leaves 0) = inv (nth j leaves 0).
+Proof.
+  intros Hp H i j E. induction E as [i j I| | |]; try congruence.
+  apply in_map_iff in I. destruct I as ([[a b] c] & E & I). simpl in E. inversion E; subst.
+  destruct (Hp _ I) as (Ia & Ib & _).
+  destruct (lookup_pos leaves a Ia) as [_ Ea]. destruct (lookup_pos leaves b Ib) as [_ Eb].
+  rewrite (nth_error_nth _ _ 0 Ea), (nth_error_nth _ _ 0 Eb). eapply H; eauto.
+Qed.
+
+Lemma build_groups_some rec leaves triples : forall gs acc,
+  (forall g, In g gs -> (forall i, In i g -> i < length leaves) /\
+     exists s, rec (gl leaves g) (filter (inside (gl leaves g)) triples) = Ok (Some s)) ->
+  exists t, build_groups rec leaves triples gs acc = Ok (Some t).
+Proof.
+  induction gs as [|g gs IH]; intros acc H; simpl; [eauto|].
+  destruct (H g (or_introl eq_refl)) as [Hr (s & E)].
+  rewrite (get_all_ok leaves g Hr). simpl. fold (gl leaves g). rewrite E. simpl.
+  apply IH. intros h Ih. apply H. right; assumption.
+Qed.
+
+Lemma build_complete_aux T : NoDup (leaves_of T) -> forall fuel leaves triples,
+  length leaves <= fuel -> leaves <> [] -> NoDup leaves ->
+  (forall x, In x leaves -> In x (leaves_of T)) ->
+  (forall tr, In tr triples -> proper leaves tr) ->
+  (forall tr, In tr triples -> displays T tr) ->
+  exists t, build fuel leaves triples = Ok (Some t).
+Proof.
+  intros NT. induction fuel as [|f IH]; intros leaves triples Lf NE NL Inc Hp Hd.
+  - destruct leaves; [congruence|simpl in Lf; lia].
+  - destruct leaves as [|a [|b [|c rest]]]; [congruence|eexists; reflexivity|eexists; reflexivity|].
+    remember (a :: b :: c :: rest) as leaves eqn:EL.
+    assert (build (S f) leaves triples =
+            (d <- unite_triples leaves triples (make (length leaves)) ;;
+             if (len d <=? 1)%Z then Ok None
+             else ' (_, gs) <- to_list d ;; build_groups (build f) leaves triples gs [])) as ->
+      by (subst leaves; reflexivity).
+    assert (In a leaves /\ In b leaves /\ a <> b) as (Ia & Ib & Nab).
+    { subst leaves. simpl. repeat split; auto. inversion NL as [|? ? NI _]; subst. intros ->. apply NI. left; reflexivity. }
+    clear EL.
+    destruct (unite_triples_reach leaves triples [] (make (length leaves)) (R_make _) Hp) as (d & -> & R).
+    simpl in R. simpl bind.
+    destruct (dsu_to_list _ _ _ R) as (d' & gs & TL & P & Ln & _).
+    pose proof P as (NEg & ND & Cov & Q).
+    destruct (separated T NT leaves triples a b Ia Ib Nab Inc) as (inv & Hinv & x & y & Ix & Iy & Nxy).
+    { intros tr I. split; auto. }
+    assert (2 <= length gs) as L2.
+    { destruct gs as [|g [|g' gs]]; [| |simpl; lia]; exfalso.
+      - assert (In (pos leaves x) (concat [])) as [] by (apply Cov; apply pos_lt; assumption).
+      - apply Nxy.
+        assert (eqv (map (idx leaves) triples) (pos leaves x) (pos leaves y)) as E.
+        { apply Q; auto using pos_lt. exists g. split; [left; reflexivity|].
+          split; [pose proof (proj2 (Cov (pos leaves x)) (pos_lt _ _ Ix)) as H|pose proof (proj2 (Cov (pos leaves y)) (pos_lt _ _ Iy)) as H];
+            simpl in H; rewrite app_nil_r in H; assumption. }
+        pose proof (eqv_respects leaves triples inv Hp Hinv _ _ E) as K.
+        destruct (lookup_pos leaves x Ix) as [_ Ex]. destruct (lookup_pos leaves y Iy) as [_ Ey].
+        rewrite (nth_error_nth _ _ 0 Ex), (nth_error_nth _ _ 0 Ey) in K. assumption. }
+    destruct (Z.leb_spec (len d) 1) as [Le|Gt]; [lia|]. rewrite TL. simpl bind.
+    pose proof (Permutation_length (partition_perm _ _ _ P)) as LC. rewrite seq_length in LC.
+    assert (forall g, In g gs -> forall i, In i g -> i < length leaves) as RANGE.
+    { intros g Ig i Ii. apply Cov. apply in_concat. eauto. }
+    apply build_groups_some. intros g Ig. split; [apply RANGE; assumption|].
+    apply IH.
+    + unfold gl. rewrite map_length. pose proof (group_smaller gs g NEg L2 Ig). lia.
+    + specialize (NEg g Ig). destruct g; [congruence|discriminate].
+    + apply NoDup_gl; eauto using NoDup_concat_in.
+    + intros z Iz. apply Inc. unfold gl in Iz. apply in_map_iff in Iz. destruct Iz as (i & <- & Ii).
+      apply nth_In. apply (RANGE g Ig i Ii).
+    + apply filter_proper; assumption.
+    + intros tr I. apply filter_In in I. apply Hd. tauto.
+Qed.
+
+(* --- build_complete: if some tree displays every triple, tree_from_triples finds one --- *)
+Theorem build_complete leaves triples T :
+  leaves <> [] -> NoDup leaves -> (forall tr, In tr triples -> proper leaves tr) ->
+  NoDup (leaves_of T) -> (forall x, In x leaves -> In x (leaves_of T)) ->
+  (forall tr, In tr triples -> displays T tr) ->
+  exists t, tree_from_triples leaves triples = Ok (Some t).
+Proof. intros. eapply build_complete_aux; eauto. Qed.
+(* --------------------------------------------------------- all_trees_complete *)
+Lemma same_clades_root t t' : same_clades t t' -> seteq (leaves_of t) (leaves_of t').
+Proof.
+  intros [F G]. destruct (F t (st_refl t)) as (s2 & S2 & E2). destruct (G t' (st_refl t')) as (s1 & S1 & E1).
+  intros x. split; intros H.
+  - apply (subtree_leaves _ _ S2). apply E2. assumption.
+  - apply (subtree_leaves _ _ S1). apply E1. assumption.
+Qed.
+
+Lemma same_clades_trans t1 t2 t3 : same_clades t1 t2 -> same_clades t2 t3 -> same_clades t1 t3.
+Proof.
+  intros [F1 G1] [F2 G2]. split; intros s S.
+  - destruct (F1 s S) as (s2 & S2 & E2). destruct (F2 s2 S2) as (s3 & S3 & E3). exists s3. split; [assumption|].
+    intros x. rewrite (E2 x). apply E3.
+  - destruct (G2 s S) as (s2 & S2 & E2). destruct (G1 s2 S2) as (s1 & S1 & E1). exists s1. split; [assumption|].
+    intros x. rewrite (E1 x). apply E2.
+Qed.
+
+Lemma same_clades_swap l r : same_clades (Node [l; r]) (Node [r; l]).
+Proof.
+  assert (forall u v s, subtree s (Node [u; v]) -> exists s2, subtree s2 (Node [v; u]) /\ seteq (leaves_of s) (leaves_of s2)) as H.
+  { intros u v s S. destruct (subtree_inv2 _ _ _ S) as [-> |[S'|S']].
+    - exists (Node [v; u]). split; [apply st_refl|]. intros x. rewrite !leaves_node2. tauto.
+    - exists s. split; [eapply st_child; [|exact S']; simpl; auto|intros x; tauto].
+    - exists s. split; [eapply st_child; [|exact S']; simpl; auto|intros x; tauto]. }
+  split; intros s S.
+  - apply H. assumption.
+  - destruct (H r l s S) as (s1 & S1 & E). exists s1. split; [assumption|]. intros x. symmetry. apply E.
+Qed.
+
+Lemma same_clades_node l r l' r' : same_clades l l' -> same_clades r r' ->
+  same_clades (Node [l; r]) (Node [l'; r']).
+Proof.
+  assert (forall u v u' v', same_clades u u' -> same_clades v v' -> forall s, subtree s (Node [u; v]) ->
+            exists s2, subtree s2 (Node [u'; v']) /\ seteq (leaves_of s) (leaves_of s2)) as H.
+  { intros u v u' v' Su Sv s S. destruct (subtree_inv2 _ _ _ S) as [-> |[S'|S']].
+    - exists (Node [u'; v']). split; [apply st_refl|]. intros x. rewrite !leaves_node2.
+      rewrite (same_clades_root _ _ Su x), (same_clades_root _ _ Sv x). tauto.
+    - destruct (proj1 Su s S') as (s2 & S2 & E). exists s2. split; [eapply st_child; [|exact S2]; simpl; auto|assumption].
+    - destruct (proj1 Sv s S') as (s2 & S2 & E). exists s2. split; [eapply st_child; [|exact S2]; simpl; auto|assumption]. }
+  intros Sl Sr. split; intros s S.
+  - eapply H; eauto.
+  - destruct (H l' r' l r (same_clades_sym _ _ Sl) (same_clades_sym _ _ Sr) s S) as (s1 & S1 & E).
+    exists s1. split; [assumption|]. intros x. symmetry. apply E.
+Qed.
+
+Lemma displays_child cs i c0 a b c : NoDup (flat_map leaves_of cs) -> nth_error cs i = Some c0 ->
+  In a (leaves_of c0) -> In b (leaves_of c0) -> In c (leaves_of c0) ->
+  displays (Node cs) (a, b, c) -> displays c0 (a, b, c).
+Proof.
+  intros ND E Ia Ib Ic (pa & pb & pc & Ha & Hb & Hc & Lt).
+  assert (forall z pz, In z (leaves_of c0) -> leaf_path (Node cs) z pz -> exists q, pz = i :: q /\ leaf_path c0 z q) as SUBP.
+  { intros z pz Iz Hz. destruct (leaf_path_exists _ _ Iz) as [q0 Hq0].
+    assert (leaf_path (Node cs) z (i :: q0)) as H0 by (econstructor; eauto).
+    inversion Hz as [|? j cz ? q Ez Hq]; subst.
+    pose proof (child_idx_path cs z j q ND Hz) as C1. pose proof (child_idx_path cs z i q0 ND H0) as C2.
+    assert (j = i) as -> by congruence. rewrite E in Ez. inversion Ez; subst. eauto. }
+  destruct (SUBP a pa Ia Ha) as (qa & -> & Ha'). destruct (SUBP b pb Ib Hb) as (qb & -> & Hb').
+  destruct (SUBP c pc Ic Hc) as (qc & -> & Hc').
+  exists qa, qb, qc. repeat split; auto. simpl in Lt. rewrite Nat.eqb_refl in Lt. simpl in Lt. lia.
+Qed.
+
+Lemma all_bins_cons_inv rec leaves triples b rest ts :
+  all_bins rec leaves triples (b :: rest) = Ok ts ->
+  exists p more, ts = p ++ more /\ all_bins rec leaves triples rest = Ok more.
+Proof.
+  intros E. simpl in E.
+  apply bind_ok in E. destruct E as ([d' gs] & _ & E).
+  apply bind_ok in E. destruct E as (gls & _ & E).
+  apply bind_ok in E. destruct E as (gl0 & _ & E).
+  apply bind_ok in E. destruct E as (gl1 & _ & E).
+  apply bind_ok in E. destruct E as (ls & _ & E).
+  apply bind_ok in E. destruct E as (rs & _ & E).
+  apply bind_ok in E. destruct E as (more & Em & E).
+  inversion E; subst. eauto.
+Qed.
+
+Lemma all_bins_in rec leaves triples : forall bins ts b d' g0 g1 ls rs l r,
+  all_bins rec leaves triples bins = Ok ts -> In b bins ->
+  to_list b = Ok (d', [g0; g1]) ->
+  (forall i, In i g0 -> i < length leaves) -> (forall i, In i g1 -> i < length leaves) ->
+  rec (gl leaves g0) (filter (inside (gl leaves g0)) triples) = Ok ls ->
+  rec (gl leaves g1) (filter (inside (gl leaves g1)) triples) = Ok rs ->
+  In l ls -> In r rs -> In (Node [l; r]) ts.
+Proof.
+  induction bins as [|b0 rest IH]; intros ts b d' g0 g1 ls rs l r E Ib T R0 R1 El Er Il Ir; [destruct Ib|].
+  destruct Ib as [-> |Ib].
+  - destruct (all_bins_cons_inv _ _ _ _ _ _ E) as (p & more & _ & Em).
+    simpl in E. rewrite T in E. simpl in E.
+    rewrite (get_all_ok leaves g0 R0) in E. simpl in E. rewrite (get_all_ok leaves g1 R1) in E. simpl in E.
+    fold (gl leaves g0) in E. fold (gl leaves g1) in E. rewrite El in E. simpl in E. rewrite Er in E. simpl in E.
+    rewrite Em in E. simpl in E. inversion E; subst. apply in_or_app. left. apply in_product. eauto.
+  - destruct (all_bins_cons_inv _ _ _ _ _ _ E) as (p & more & -> & Em).
+    apply in_or_app. right. eapply IH; eauto.
+Qed.
+
+Lemma bin_one_leaf t a : bin t -> Permutation (leaves_of t) [a] -> t = Leaf a.
+Proof.
+  intros B P. destruct B as [x|l r Bl Br].
+  - simpl in P. apply Permutation_length_1 in P. congruence.
+  - exfalso. apply Permutation_length in P. simpl in P. rewrite app_nil_r, app_length in P.
+    destruct (bin_has_leaf _ Bl) as [x Hx]. destruct (bin_has_leaf _ Br) as [y Hy].
+    destruct (leaves_of l); [destruct Hx|]. destruct (leaves_of r); [destruct Hy|]. simpl in P. lia.
+Qed.
+
+Lemma all_trees_aux_complete ord : set_order ord -> forall fuel leaves triples T,
+  length leaves <= fuel -> NoDup leaves -> (forall tr, In tr triples -> proper leaves tr) ->
+  bin T -> Permutation (leaves_of T) leaves -> (forall tr, In tr triples -> displays T tr) ->
+  exists ts t, all_trees_aux ord fuel leaves triples = Ok ts /\ In t ts /\ same_clades t T.
+Proof.
+  intros SO. induction fuel as [|f IH]; intros leaves triples T Lf NL Hp BT PT HT.
+  - destruct leaves; [|simpl in Lf; lia]. destruct (bin_has_leaf _ BT) as [x Hx].
+    apply (Permutation_in _ PT) in Hx. destruct Hx.
+  - destruct leaves as [|a [|b [|c rest]]].
+    + destruct (bin_has_leaf _ BT) as [x Hx]. apply (Permutation_in _ PT) in Hx. destruct Hx.
+    + rewrite (bin_one_leaf T a BT PT). exists [Leaf a], (Leaf a). split; [reflexivity|].
+      split; [left; reflexivity|apply same_clades_refl].
+    + exists [Node [Leaf a; Leaf b]], (Node [Leaf a; Leaf b]). split; [reflexivity|]. split; [left; reflexivity|].
+      destruct BT as [x|l r Bl Br]; [apply Permutation_length in PT; discriminate|].
+      simpl in PT. rewrite app_nil_r in PT.
+      destruct (bin_has_leaf _ Bl) as [x Hx]. destruct (bin_has_leaf _ Br) as [y Hy].
+      pose proof (Permutation_length PT) as Ln. rewrite app_length in Ln. simpl in Ln.
+      destruct (leaves_of l) as [|x' [|? ?]] eqn:Ll; [destruct Hx| |simpl in Ln; destruct (leaves_of r); [destruct Hy|simpl in Ln; lia]].
+      destruct (leaves_of r) as [|y' [|? ?]] eqn:Lr; [destruct Hy| |simpl in Ln; lia].
+      assert (l = Leaf x') as -> by (apply bin_one_leaf; [assumption|rewrite Ll; apply Permutation_refl]).
+      assert (r = Leaf y') as -> by (apply bin_one_leaf; [assumption|rewrite Lr; apply Permutation_refl]).
+      simpl in PT. apply Permutation_length_2 in PT. destruct PT as [[-> ->]|[-> ->]].
+      * apply same_clades_refl.
+      * apply same_clades_swap.
+    + remember (a :: b :: c :: rest) as leaves eqn:EL.
+      assert (all_trees_aux ord (S f) leaves triples =
+              (d <- unite_triples leaves triples (make (length leaves)) ;;
+               ' (_, bins) <- binary ord d ;;
+               all_bins (all_trees_aux ord f) leaves triples bins)) as ->
+        by (subst leaves; reflexivity).
+      assert (3 <= length leaves) as L3 by (subst leaves; simpl; lia).
+      clear a b c rest EL.
+      destruct BT as [x|L R BL BR]; [apply Permutation_length in PT; simpl in PT; lia|].
+      assert (NoDup (leaves_of (Node [L; R]))) as NT by (eapply Permutation_NoDup; [symmetry; exact PT|assumption]).
+      pose proof NT as NT'. simpl in NT'.
+      assert (forall x, In x (leaves_of L) -> ~ In x (leaves_of R)) as DLR.
+      { intros x Hl Hr. rewrite app_nil_r in NT'. eapply NoDup_app_disj; eauto. }
+      assert (forall x, In x leaves <-> In x (leaves_of L) \/ In x (leaves_of R)) as INL.
+      { intros x. rewrite <- leaves_node2. split; apply Permutation_in; [symmetry|]; assumption. }
+      destruct (unite_triples_reach leaves triples [] (make (length leaves)) (R_make _) Hp) as (d & -> & Rd).
+      simpl in Rd. simpl bind.
+      destruct (dsu_binary _ _ _ ord Rd SO) as (d1 & bs & -> & _ & Sound & Complete & Once). simpl bind.
+      (* the colouring given by the root of T *)
+      set (s := fun i => mem (nth i leaves 0) (leaves_of L)).
+      assert (two_colouring (length leaves) (eqv (map (idx leaves) triples)) s) as TC.
+      { split; [|split].
+        - intros i j Hi Hj E. unfold s.
+          pose proof (eqv_respects leaves triples (fun x => if mem x (leaves_of L) then 1 else 0) Hp) as K.
+          simpl in K. specialize (fun H => K H i j E).
+          assert (forall a b c, In (a, b, c) triples ->
+                    (if mem a (leaves_of L) then 1 else 0) = (if mem b (leaves_of L) then 1 else 0)) as Q.
+          { intros a b c I. destruct (HT _ I) as (pa & pb & pc & Ha & Hb & _ & Lt).
+            destruct pa as [|h pa]; [inversion Ha|]. destruct pb as [|h' pb]; [inversion Hb|].
+            simpl in Lt. destruct (Nat.eqb_spec h h') as [->|N]; [|simpl in Lt; lia].
+            inversion Ha as [|? ? ca ? ? Ea Hpa]; subst. inversion Hb as [|? ? cb ? ? Eb Hpb]; subst.
+            rewrite Ea in Eb. inversion Eb; subst cb. apply leaf_path_in in Hpa, Hpb.
+            destruct h' as [|[|h']]; simpl in Ea; inversion Ea; subst.
+            - rewrite (proj2 (mem_in a _) Hpa), (proj2 (mem_in b _) Hpb). reflexivity.
+            - destruct (mem a (leaves_of L)) eqn:Ma; [apply mem_in in Ma; destruct (DLR a Ma Hpa)|].
+              destruct (mem b (leaves_of L)) eqn:Mb; [apply mem_in in Mb; destruct (DLR b Mb Hpb)|]. reflexivity.
+            - destruct h'; discriminate. }
+          specialize (K Q). destruct (mem (nth i leaves 0) (leaves_of L)), (mem (nth j leaves 0) (leaves_of L)); congruence.
+        - destruct (bin_has_leaf _ BL) as [x Hx]. assert (In x leaves) as Ix by (apply INL; auto).
+          exists (pos leaves x). split; [apply pos_lt; assumption|]. unfold s.
+          destruct (lookup_pos leaves x Ix) as [_ Ex]. rewrite (nth_error_nth _ _ 0 Ex). apply mem_in. assumption.
+        - destruct (bin_has_leaf _ BR) as [y Hy]. assert (In y leaves) as Iy by (apply INL; auto).
+          exists (pos leaves y). split; [apply pos_lt; assumption|]. unfold s.
+          destruct (lookup_pos leaves y Iy) as [_ Ey]. rewrite (nth_error_nth _ _ 0 Ey).
+          destruct (mem y (leaves_of L)) eqn:M; [|reflexivity]. apply mem_in in M. destruct (DLR y M Hy). }
+      destruct (Complete s TC) as (b0 & Ib0 & Rb0).
+      destruct (Sound b0 Ib0) as (Lb0 & _).
+      destruct (represents_two leaves b0 _ Rb0 Lb0) as (d' & g0 & g1 & T0 & P).
+      destruct (two_partition_facts leaves NL _ g0 g1 P) as (R0 & R1 & N0 & N1 & NE0 & NE1 & D).
+      pose proof P as (_ & NDc & Cov & Q). simpl in NDc, Cov. rewrite app_nil_r in NDc, Cov.
+      assert (length g0 < length leaves /\ length g1 < length leaves) as [L0 L1].
+      { pose proof (Permutation_length (partition_perm _ _ _ P)) as LC. rewrite seq_length in LC.
+        destruct P as (NE & _). split; rewrite <- LC; apply group_smaller; simpl; auto. }
+      (* the existence of the result list *)
+      destruct (all_bins_spec leaves triples NL Hp (all_trees_aux ord f)) with (bins := bs) as (ts & E & _).
+      { intros g Ng Rg Lg. apply all_trees_aux_spec; auto.
+        - unfold gl. rewrite map_length. lia.
+        - apply NoDup_gl; assumption.
+        - apply filter_proper; assumption. }
+      { intros b1 Ib. destruct (Sound b1 Ib) as (L2 & s1 & (S1 & _) & Rs).
+        exists (fun x y => s1 x = s1 y). split; [assumption|]. split; [assumption|].
+        intros x y z I. destruct (Hp _ I) as (Ix & Iy & _).
+        apply S1; auto using pos_lt. apply eqv_pair. apply (in_map (idx leaves) _ _ I). }
+      { apply NoDupBy_of_nth. intros i j bi bj Ei Ej (R2 & Ri & Rj). eapply Once; eauto. }
+      exists ts.
+      (* colour of the two groups *)
+      assert (forall g, In g [g0; g1] -> forall i j, In i g -> In j g -> s i = s j) as SAME.
+      { intros g Ig i j Ii Ij. apply Q; [apply Cov; destruct Ig as [<-|[<-|[]]]; apply in_or_app; auto
+                                        |apply Cov; destruct Ig as [<-|[<-|[]]]; apply in_or_app; auto|eauto]. }
+      assert (forall i j, In i g0 -> In j g1 -> s i <> s j) as DIFF.
+      { intros i j Ii Ij E'. apply Q in E'; [|apply R0; assumption|apply R1; assumption].
+        destruct E' as (g & [<-|[<-|[]]] & Hi & Hj); eapply NoDup_app_disj; eauto. }
+      (* generic step: a group whose colour is that of U *)
+      assert (forall (g : list nat) (U : tree) (v : bool), In g [g0; g1] -> g <> [] -> NoDup g ->
+                (forall i, In i g -> i < length leaves) -> length g < length leaves ->
+                (forall i, In i g -> s i = v) -> (forall i, i < length leaves -> s i = v -> In i g) ->
+                bin U -> (U = L \/ U = R) -> (forall x, In x (leaves_of U) <-> In x leaves /\ mem x (leaves_of L) = v) ->
+                exists us u, all_trees_aux ord f (gl leaves g) (filter (inside (gl leaves g)) triples) = Ok us /\
+                             In u us /\ same_clades u U) as STEP.
+      { intros g U v Ig NEg Ng Rg Lg Cg Cg' BU HU LU.
+        assert (NoDup (gl leaves g)) as NG by (apply NoDup_gl; assumption).
+        assert (forall x, In x (gl leaves g) <-> In x (leaves_of U)) as SE.
+        { intros x. rewrite LU. split.
+          - intros Hx. unfold gl in Hx. apply in_map_iff in Hx. destruct Hx as (i & <- & Ii).
+            split; [apply nth_In; apply Rg; assumption|apply (Cg i Ii)].
+          - intros [Ix Mx]. apply in_gl; [|assumption]. apply Cg'; [apply pos_lt; assumption|].
+            unfold s. destruct (lookup_pos leaves x Ix) as [_ Ex]. rewrite (nth_error_nth _ _ 0 Ex). assumption. }
+        assert (exists k, nth_error [L; R] k = Some U) as [k Ek] by (destruct HU as [-> | ->]; [exists 0|exists 1]; reflexivity).
+        apply IH; auto.
+        - unfold gl. rewrite map_length. lia.
+        - apply filter_proper; assumption.
+        - apply NoDup_Permutation; [exact (NoDup_child [L; R] k U NT' Ek)|assumption|]. intros x. symmetry. apply SE.
+        - intros [[x y] z] I. apply filter_In in I. destruct I as [I M]. simpl in M.
+          apply andb_prop in M. destruct M as [M Mz]. apply andb_prop in M. destruct M as [Mx My].
+          apply mem_in in Mx, My, Mz.
+          apply (displays_child [L; R] k U x y z NT' Ek); try (apply SE; assumption). apply HT. assumption. }
+      destruct (bin_has_leaf _ BL) as [xl Hxl]. assert (In xl leaves) as Ixl by (apply INL; auto).
+      assert (s (pos leaves xl) = true) as Sxl.
+      { unfold s. destruct (lookup_pos leaves xl Ixl) as [_ Ex]. rewrite (nth_error_nth _ _ 0 Ex). apply mem_in. assumption. }
+      assert (forall x, In x (leaves_of L) <-> In x leaves /\ mem x (leaves_of L) = true) as LUL.
+      { intros x. rewrite mem_in, INL. tauto. }
+      assert (forall x, In x (leaves_of R) <-> In x leaves /\ mem x (leaves_of L) = false) as LUR.
+      { intros x. rewrite INL. split.
+        - intros Hr. split; [auto|]. destruct (mem x (leaves_of L)) eqn:M; [|reflexivity]. apply mem_in in M. destruct (DLR x M Hr).
+        - intros [[Hl|Hr] M]; [|assumption]. apply mem_in in Hl. congruence. }
+      assert (In (pos leaves xl) g0 \/ In (pos leaves xl) g1) as [I0|I1]
+        by (apply in_app_or; apply Cov; apply pos_lt; assumption).
+      * (* g0 is the side of L *)
+        assert (forall i, In i g0 -> s i = true) as C0 by (intros i Ii; rewrite <- Sxl; apply (SAME g0); simpl; auto).
+        assert (forall i, In i g1 -> s i = false) as C1.
+        { intros i Ii. destruct (s i) eqn:Si; [|reflexivity]. exfalso. apply (DIFF (pos leaves xl) i I0 Ii). congruence. }
+        assert (forall i, i < length leaves -> s i = true -> In i g0) as C0'.
+        { intros i Hi Si. destruct (in_app_or _ _ _ (proj2 (Cov i) Hi)) as [?|I1]; [assumption|]. rewrite (C1 i I1) in Si. discriminate. }
+        assert (forall i, i < length leaves -> s i = false -> In i g1) as C1'.
+        { intros i Hi Si. destruct (in_app_or _ _ _ (proj2 (Cov i) Hi)) as [I0'|?]; [|assumption]. rewrite (C0 i I0') in Si. discriminate. }
+        destruct (STEP g0 L true) as (ls & l & El & Il & Sl); simpl; auto.
+        destruct (STEP g1 R false) as (rs & r & Er & Ir & Sr); simpl; auto.
+        exists (Node [l; r]). split; [assumption|]. split.
+        -- eapply all_bins_in; eauto.
+        -- apply same_clades_node; assumption.
+      * (* g1 is the side of L *)
+        assert (forall i, In i g1 -> s i = true) as C1 by (intros i Ii; rewrite <- Sxl; apply (SAME g1); simpl; auto).
+        assert (forall i, In i g0 -> s i = false) as C0.
+        { intros i Ii. destruct (s i) eqn:Si; [|reflexivity]. exfalso. apply (DIFF i (pos leaves xl) Ii I1). congruence. }
+        assert (forall i, i < length leaves -> s i = true -> In i g1) as C1'.
+        { intros i Hi Si. destruct (in_app_or _ _ _ (proj2 (Cov i) Hi)) as [I0|?]; [|assumption]. rewrite (C0 i I0) in Si. discriminate. }
+        assert (forall i, i < length leaves -> s i = false -> In i g0) as C0'.
+        { intros i Hi Si. destruct (in_app_or _ _ _ (proj2 (Cov i) Hi)) as [?|I1']; [assumption|]. rewrite (C1 i I1') in Si. discriminate. }
+        destruct (STEP g0 R false) as (ls & l & El & Il & Sl); simpl; auto.
+        destruct (STEP g1 L true) as (rs & r & Er & Ir & Sr); simpl; auto.
+        exists (Node [l; r]). split; [assumption|]. split.
+        -- eapply all_bins_in; eauto.
+        -- eapply same_clades_trans; [apply same_clades_node; eassumption|apply same_clades_swap].
+Qed.
+
+(* --- all_trees_complete: every binary tree on the leaf set displaying every triple is returned --- *)
+Theorem all_trees_complete ord leaves triples T :
+  set_order ord -> NoDup leaves -> (forall tr, In tr triples -> proper leaves tr) ->
+  bin T -> Permutation (leaves_of T) leaves -> (forall tr, In tr triples -> displays T tr) ->
+  exists ts t, all_trees ord leaves triples = Ok ts /\ In t ts /\ same_clades t T.
+Proof.
+  intros SO NL Hp BT PT HT. unfold all_trees.
+  assert (NoDup (leaves_of T)) as NT by (eapply Permutation_NoDup; [symmetry; exact PT|assumption]).
+  destruct (build_complete leaves triples T) as [t0 ->]; auto.
+  - intros ->. destruct (bin_has_leaf _ BT) as [x Hx]. apply (Permutation_in _ PT) in Hx. destruct Hx.
+  - intros x Hx. eapply Permutation_in; [symmetry; exact PT|assumption].
+  - simpl. apply all_trees_aux_complete; auto.
+Qed.
+(* ------------------------------------------------------------- open goals *)
+(* Stated, not proved (listed in OPEN_GOALS of harness/props/c20.py; covered by the
+   exhaustive correspondence batches "roundtrip" and "supertree" only). *)
+
+(* decomposing a binary tree into triples (any pop order) and rebuilding keeps the clades *)
+Definition breakup_roundtrip_statement : Prop :=
+  forall T choices ts, bin T -> NoDup (leaves_of T) ->
+  breakup (size T) choices T = Ok (Some ts) ->
+  exists t, tree_from_triples (leaves_of T) ts = Ok (Some t) /\ same_clades t T.
+
+(* a supertree built from the triples of binary trees displays each of them *)
+Definition supertree_displays_statement : Prop :=
+  forall (Ts : list tree) (tss : list (list triple)) (leaves : list nat) (triples : list triple) t,
+  Forall2 (fun T ts => bin T /\ NoDup (leaves_of T) /\
+                       exists choices, breakup (size T) choices T = Ok (Some ts)) Ts tss ->
+  NoDup leaves -> (forall x, In x leaves <-> exists T, In T Ts /\ In x (leaves_of T)) ->
+  (forall tr, In tr triples <-> In tr (concat tss)) ->
+  tree_from_triples leaves triples = Ok (Some t) ->
+  forall T tr, In T Ts -> displays T tr -> displays t tr.
